@@ -57,6 +57,11 @@ def G7(head_left=False):
                 unary=[(3, 4, 'u')], roots=[5], uniform=True)
 
 
+def G8():
+    """the full-span category is not a root but has a unary rule into the root set: a multi-word sentence must fail"""
+    return dict(name='G8', ncats=5, T=2, binary=[(0, 1, 2, 1, 'ab'), (1, 0, 2, 1, 'ba'), (0, 0, 4, 1, 'aa')], unary=[(2, 3, 'u'), (0, 3, 'v')], roots=[3, 4], uniform=True)
+
+
 def G6():
     """one word, four tags, unary rules (two results with different labels for tag 0), several roots (n = 1 obligations)"""
     return dict(name='G6', ncats=7, T=4, binary=[], unary=[(0, 4, 'a'), (0, 6, 'a2'), (1, 4, 'b'), (4, 5, 'c'), (2, 6, 'd')], roots=[3, 5, 6, 1], uniform=True)
